@@ -409,9 +409,42 @@ theorem strip_rstrip (w : Str) : strip (rstrip w) = strip w := by
   unfold strip
   rw [lstrip_rstrip_comm, rstrip_idem]
 
-theorem readInt_rstrip (w : Str) : readInt (rstrip w) = readInt w := by unfold readInt; rw [strip_rstrip]
-theorem readFloat_rstrip (w : Str) : readFloat (rstrip w) = readFloat w := by unfold readFloat; rw [strip_rstrip]
-theorem readBoolInt_rstrip (w : Str) : readBoolInt (rstrip w) = readBoolInt w := by unfold readBoolInt; rw [readInt_rstrip]
+theorem any_isSep_rstrip (w : Str) (h : w.any isSep = false) : (rstrip w).any isSep = false := by
+  rw [Bool.eq_false_iff] at h ⊢
+  intro ha
+  apply h
+  rw [List.any_eq_true] at ha ⊢
+  obtain ⟨ch, hch, hs⟩ := ha
+  refine ⟨ch, ?_, hs⟩
+  unfold rstrip at hch
+  rw [List.mem_reverse] at hch
+  have := (List.dropWhile_sublist (l := w.reverse) isWs).subset hch
+  exact List.mem_reverse.mp this
+
+/-- the trailing white space that the line-level `strip` removed makes no difference to a number — unless the text
+contains one of \x1c–\x1f, on which `int()` / `float()` fail while `strip()` removes them -/
+theorem numPrep_rstrip (w : Str) (h : w.any isSep = false) : numPrep (rstrip w) = numPrep w := by
+  unfold numPrep
+  rw [any_isSep_rstrip w h, h, strip_rstrip]
+
+theorem numPrep_of_sep (w : Str) (h : w.any isSep = true) : numPrep w = none := by
+  unfold numPrep; rw [h]; rfl
+
+theorem readInt_rstrip (w : Str) (v : Int) (h : readInt w = .ok v) : readInt (rstrip w) = .ok v := by
+  cases hs : w.any isSep with
+  | true => unfold readInt at h; rw [numPrep_of_sep w hs] at h; cases h
+  | false => unfold readInt at h ⊢; rw [numPrep_rstrip w hs]; exact h
+
+theorem readFloat_rstrip (w : Str) (v : Rat) (h : readFloat w = .ok v) : readFloat (rstrip w) = .ok v := by
+  cases hs : w.any isSep with
+  | true => unfold readFloat at h; rw [numPrep_of_sep w hs] at h; cases h
+  | false => unfold readFloat at h ⊢; rw [numPrep_rstrip w hs]; exact h
+
+theorem readBoolInt_rstrip (w : Str) (v : Bool) (h : readBoolInt w = .ok v) : readBoolInt (rstrip w) = .ok v := by
+  unfold readBoolInt at h ⊢
+  cases hi : readInt w with
+  | error e => rw [hi] at h; cases h
+  | ok i => rw [hi] at h; rw [readInt_rstrip w i hi]; exact h
 
 end Reamber.Osu
 
